@@ -25,6 +25,7 @@ ASSUME Out("mergedocs", MergeDocs)
 ASSUME Out("mergedeep", MergeDeep)
 ASSUME Out("yamldocs", YamlDocs)
 ASSUME Out("deeparr", DeepArr)
+ASSUME Out("strdocs", StrDocs)
 ASSUME Out("objptr", ObjPtr)
 ASSUME Out("ptrdeep", PtrDeep)
 =============================================================================
